@@ -32,6 +32,12 @@ def gen_case(rng, idx):
         losses = list(losses)
         li = rng.randrange(len(losses))
         losses[li] = prog.op("scale", [losses[li]], c=2 ** 24 + 1)
+    dup_loss = idx % 7 == 5 and len(losses) >= 2
+    if dup_loss:
+        # the SAME loss tensor listed for two tasks (a loss that counts twice, once per group of parameters): one
+        # row of the Jacobian per position in `losses`, each task's parameters receive that loss' gradient
+        losses = list(losses) + [losses[0]]
+        tasks = [list(ps) for ps in tasks] + [list(tasks[1])]
     t = len(losses)
     leaves = [x for x in range(prog.n()) if prog.is_leaf[x] and prog.req[x]]
     calls = []
@@ -39,6 +45,8 @@ def gen_case(rng, idx):
     # retain_graph=False (C13's side condition), so such programs are driven with retain_graph=True
     nested = ajlib.entangled(prog, feats)
     variants = [(None, None), (tasks, shared), (tasks, None), (None, shared), (tasks, [])]   # [] = heads-only update
+    if dup_loss:
+        variants = [(tasks, shared), (tasks, None), (tasks, [])]
     for k in [None, 1, 2, t + 1] + ([3] if t >= 4 else []) + ([4] if t >= 5 else []):
         tp, sp = rng.choice(variants)
         if tp is not None and rng.random() < 0.3:
@@ -59,7 +67,7 @@ def gen_case(rng, idx):
         if sp is not None and rng.random() < 0.5:
             sp = list(reversed(sp))
         call = {"entry": "mtl", "losses": losses, "features": feats, "tasks": tp, "shared": sp,
-                "agg": ajcheck.rand_agg(rng, t), "k": k, "retain": nested,
+                "agg": ajcheck.rand_agg(rng, t), "k": k, "retain": nested or dup_loss,
                 "param_kind": rng.choice(["list", "list", "gen", "iter", "tuple", "dictkeys"]),
                 "single_feature": len(feats) == 1 and rng.random() < 0.5}
         calls.append(ajcheck.prepare_call(prog, call))
